@@ -6,7 +6,7 @@ import math
 import numpy as np
 
 from .. import state
-from ..common import hx, run_cases, sk
+from ..common import pick, hx, run_cases, sk
 from ..refs import hll_ref
 
 ID = "C17"
@@ -100,7 +100,7 @@ def gen_cases(ctx):
                 n = max(1, int(load * m * (0.8 + 0.4 * rng.random())))
                 yield {"p": p, "kind": "ideal", "n": n, "seed": int(rng.integers(0, 2**31))}
             # real adds (cost ~1 us per key): small p at high load, large p at low load
-            load = float(rng.choice([0.02, 0.3, 1.0, 3.0, 8.0]))
+            load = pick(rng, [0.02, 0.3, 1.0, 3.0, 8.0])
             n = int(load * m)
             if n <= (60000 if ctx.quick else 400000):
                 yield {"p": p, "kind": "real", "n": max(1, n), "seed": int(rng.integers(0, 2**31)),
